@@ -500,3 +500,136 @@ Print Assumptions C03_real_xinst_refines.
 Print Assumptions C03_real_blocks_are_model.
 Print Assumptions C03_real_blocks_agree.
 Print Assumptions C03_bad_extract_rejected.
+
+(** (g) capstones (work package capstones): (d) composed with the conformance theorems C01 / C14
+    (ChaCha), C06 (JH), C04 (BLAKE) — the whole block functions computed on every real back end,
+    and in every configuration, return the values of the SPECIFICATIONS Spec/ChaCha.v, Spec/JH.v,
+    Spec/Blake.v. [stream_store v drounds key nonce k] = the three [vec128_storage]s (byte images)
+    of the stream positioned at block counter [k] (C01's [block_state]); [ctr_plus v k i] =
+    [(k + i) mod blocks_of (layout_of v)]; [wide_in_range v k] = [k < blocks_of (layout_of v)] and,
+    for the IETF layout, [k + 3 < 2^32]; [h_split l = (firstn 4 l, skipn 4 l)]. *)
+From CC Require Spec.ChaCha Spec.JH Spec.Blake Proofs.BlakeRounds.
+From CC Require Import Model.ChaChaStream Proofs.ChaChaCompose Proofs.Capstones.
+
+Theorem C03_real_chacha_block_eq_spec :
+  forall p v drounds key nonce,
+    Forall is_byte key -> length key = 32%nat -> Forall is_byte nonce ->
+    length nonce = (match v with VDjb => 8 | VIetf => 12 | VX => 24 end)%nat ->
+    (forall b1 b2 k, k < Spec.ChaCha.blocks_of (layout_of v) ->
+       x_refill_narrow (real_xinst p b1) (real_xinst p b2) drounds (stream_store v drounds key nonce k) =
+       (Spec.ChaCha.spec_block (layout_of v) drounds key nonce k, stream_store v drounds key nonce (k + 1))) /\
+    (forall b k, wide_in_range v k ->
+       xm_refill_wide (real_xinst p b) drounds (stream_store v drounds key nonce k) =
+       (Spec.ChaCha.spec_block (layout_of v) drounds key nonce (ctr_plus v k 0) ++
+        Spec.ChaCha.spec_block (layout_of v) drounds key nonce (ctr_plus v k 1) ++
+        Spec.ChaCha.spec_block (layout_of v) drounds key nonce (ctr_plus v k 2) ++
+        Spec.ChaCha.spec_block (layout_of v) drounds key nonce (ctr_plus v k 3),
+        stream_store v drounds key nonce (k + 4))).
+Proof. exact real_chacha_block_eq_spec. Qed.
+
+Theorem C03_config_chacha_block_eq_spec :
+  forall c, f_sse2 (xcpu c) = true ->
+  forall v drounds key nonce,
+    Forall is_byte key -> length key = 32%nat -> Forall is_byte nonce ->
+    length nonce = (match v with VDjb => 8 | VIetf => 12 | VX => 24 end)%nat ->
+    (forall k, k < Spec.ChaCha.blocks_of (layout_of v) ->
+       refill_narrow_on drounds c (stream_store v drounds key nonce k) =
+       Some (Spec.ChaCha.spec_block (layout_of v) drounds key nonce k, stream_store v drounds key nonce (k + 1))) /\
+    (forall k, wide_in_range v k ->
+       on_x MDispatch (fun m => xm_refill_wide m drounds) c (stream_store v drounds key nonce k) =
+       Some (Spec.ChaCha.spec_block (layout_of v) drounds key nonce (ctr_plus v k 0) ++
+             Spec.ChaCha.spec_block (layout_of v) drounds key nonce (ctr_plus v k 1) ++
+             Spec.ChaCha.spec_block (layout_of v) drounds key nonce (ctr_plus v k 2) ++
+             Spec.ChaCha.spec_block (layout_of v) drounds key nonce (ctr_plus v k 3),
+             stream_store v drounds key nonce (k + 4))).
+Proof. exact config_chacha_block_eq_spec. Qed.
+
+(** the store is what the back ends compute: [seek32] (IETF) / [seek64] (djb, X) of the constructor's
+    state, run on any real back end; the XChaCha constructor run on any real back ends *)
+Theorem C03_real_chacha_seek_is_stream_store :
+  forall p b v drounds key nonce k,
+    Forall is_byte key -> length key = 32%nat -> Forall is_byte nonce ->
+    length nonce = (match v with VDjb => 8 | VIetf => 12 | VX => 24 end)%nat ->
+    k < Spec.ChaCha.blocks_of (layout_of v) ->
+    (if is12_of v
+     then x_seek32 _ (xm_n (real_xinst p b)) (store_of (init_of v drounds key nonce)) k
+     else x_seek64 _ (xm_n (real_xinst p b)) (store_of (init_of v drounds key nonce)) k)
+    = stream_store v drounds key nonce k.
+Proof. exact real_chacha_seek_is_stream_store. Qed.
+
+Theorem C03_real_xchacha_init_is_model :
+  forall p b1 b2 drounds key nonce,
+    Forall is_byte key -> length key = 32%nat -> Forall is_byte nonce -> length nonce = 24%nat ->
+    x_init_chacha_x (real_xinst p b1) (real_xinst p b2) key nonce drounds = store_of (init_of VX drounds key nonce).
+Proof. exact real_xchacha_init_is_model. Qed.
+
+Theorem C03_real_jh_f8_eq_spec :
+  forall p b state data, bytes_ok 128 state -> bytes_ok 64 data ->
+    xm_f8 (real_xinst p b) e8_sched state data = Spec.JH.F8 state data.
+Proof. exact real_jh_f8_eq_spec. Qed.
+
+Theorem C03_config_jh_f8_eq_spec :
+  forall c, f_sse2 (xcpu c) = true ->
+  forall state data, bytes_ok 128 state -> bytes_ok 64 data ->
+    on_x MDispatch (fun m => xm_f8 m e8_sched state) c data = Some (Spec.JH.F8 state data).
+Proof. exact config_jh_f8_eq_spec. Qed.
+
+Theorem C03_real_blake_compress_eq_spec :
+  forall p b,
+    (forall v h block t0 t1, v = Spec.Blake.blake224 \/ v = Spec.Blake.blake256 ->
+       bytes_ok 16 (fst h) -> bytes_ok 16 (snd h) -> bytes_ok 64 block -> t0 < 2 ^ 32 -> t1 < 2 ^ 32 ->
+       xm_put_block32 (real_xinst p b) h block (t0, t1) =
+       h_bytes 4 (h_split (Spec.Blake.compress_v v (BlakeRounds.to_list (h_words 4 h))
+                             (Spec.Blake.block_words v block) t0 t1))) /\
+    (forall v h block t0 t1, v = Spec.Blake.blake384 \/ v = Spec.Blake.blake512 ->
+       bytes_ok 32 (fst h) -> bytes_ok 32 (snd h) -> bytes_ok 128 block -> t0 < 2 ^ 64 -> t1 < 2 ^ 64 ->
+       xm_put_block64 (real_xinst p b) h block (t0, t1) =
+       h_bytes 8 (h_split (Spec.Blake.compress_v v (BlakeRounds.to_list (h_words 8 h))
+                             (Spec.Blake.block_words v block) t0 t1))).
+Proof. exact real_blake_compress_eq_spec. Qed.
+
+Theorem C03_config_blake_compress_eq_spec :
+  forall c, f_sse2 (xcpu c) = true ->
+    (forall v h block t0 t1, v = Spec.Blake.blake224 \/ v = Spec.Blake.blake256 ->
+       bytes_ok 16 (fst h) -> bytes_ok 16 (snd h) -> bytes_ok 64 block -> t0 < 2 ^ 32 -> t1 < 2 ^ 32 ->
+       on_x MDispatch (fun m h => xm_put_block32 m h block (t0, t1)) c h =
+       Some (h_bytes 4 (h_split (Spec.Blake.compress_v v (BlakeRounds.to_list (h_words 4 h))
+                                   (Spec.Blake.block_words v block) t0 t1)))) /\
+    (forall v h block t0 t1, v = Spec.Blake.blake384 \/ v = Spec.Blake.blake512 ->
+       bytes_ok 32 (fst h) -> bytes_ok 32 (snd h) -> bytes_ok 128 block -> t0 < 2 ^ 64 -> t1 < 2 ^ 64 ->
+       on_x MDispatch (fun m h => xm_put_block64 m h block (t0, t1)) c h =
+       Some (h_bytes 8 (h_split (Spec.Blake.compress_v v (BlakeRounds.to_list (h_words 8 h))
+                                   (Spec.Blake.block_words v block) t0 t1)))).
+Proof. exact config_blake_compress_eq_spec. Qed.
+
+(** on the bytes alone: new [state.h] = little-endian storage of the specified compression function's words *)
+Theorem C03_real_blake_compress_bytes :
+  forall p b,
+    (forall v h block t0 t1, v = Spec.Blake.blake224 \/ v = Spec.Blake.blake256 ->
+       bytes_ok 16 (fst h) -> bytes_ok 16 (snd h) -> bytes_ok 64 block -> t0 < 2 ^ 32 -> t1 < 2 ^ 32 ->
+       let out := xm_put_block32 (real_xinst p b) h block (t0, t1) in
+       fst out ++ snd out =
+       bytes_le 4 (Spec.Blake.compress_v v (words_le 4 (fst h) ++ words_le 4 (snd h))
+                     (Spec.Blake.block_words v block) t0 t1)) /\
+    (forall v h block t0 t1, v = Spec.Blake.blake384 \/ v = Spec.Blake.blake512 ->
+       bytes_ok 32 (fst h) -> bytes_ok 32 (snd h) -> bytes_ok 128 block -> t0 < 2 ^ 64 -> t1 < 2 ^ 64 ->
+       let out := xm_put_block64 (real_xinst p b) h block (t0, t1) in
+       fst out ++ snd out =
+       bytes_le 8 (Spec.Blake.compress_v v (words_le 8 (fst h) ++ words_le 8 (snd h))
+                     (Spec.Blake.block_words v block) t0 t1)).
+Proof. exact real_blake_compress_bytes. Qed.
+
+(** non-vacuity: the real back ends run ([vm_compute]) and return the RFC 7539 2.3.2 block, the
+    published JH-256 initial value, the published BLAKE-256 digest of the one-byte message *)
+Definition C03_capstone_examples := (real_chacha_rfc7539_block, real_jh_iv256, real_blake_one_byte).
+
+Print Assumptions C03_real_chacha_block_eq_spec.
+Print Assumptions C03_config_chacha_block_eq_spec.
+Print Assumptions C03_real_chacha_seek_is_stream_store.
+Print Assumptions C03_real_xchacha_init_is_model.
+Print Assumptions C03_real_jh_f8_eq_spec.
+Print Assumptions C03_config_jh_f8_eq_spec.
+Print Assumptions C03_real_blake_compress_eq_spec.
+Print Assumptions C03_config_blake_compress_eq_spec.
+Print Assumptions C03_real_blake_compress_bytes.
+Print Assumptions C03_capstone_examples.
